@@ -76,6 +76,17 @@ def run(tier, seed):
                 extra.append({"p": ".sy-dir-cache.json", "k": "f", "data": b'{"version":2,"dir_entries":{},"file_entries":{}}', "mt_ns": 10**9})
             if i % 6 == 2:
                 extra.append({"p": ".sy-state.json", "k": "f", "data": b"garbage not json", "mt_ns": 10**9})
+            # symbolic links in the source under each link mode: what the dry run announces for them must be what the real run does
+            link_args = []
+            if i % 7 == 4 and "--bidirectional" not in state:
+                link_args = ["--links", ["follow", "skip", "preserve"][(i // 7) % 3]]
+                have = {e["p"] for e in sspec} | {e["p"] for e in dspec}
+                tfile = next((e["p"] for e in sspec if e["k"] == "f" and "/" not in e["p"]), None)
+                for name, tgt in (("zz_lnk_file", tfile), ("zz_lnk_dangling", "nowhere"), ("zz_lnk_dir", ".")):
+                    if tgt and name not in have:
+                        sspec = sspec + [{"p": name, "k": "l", "target": tgt}]
+                if tfile and r.random() < 0.5:
+                    dspec = dspec + [{"p": "zz_lnk_file", "k": "f", "data": b"an older copy", "mt_ns": 10**9}]
             base = os.path.join(sc.dir, "w%d" % i)
             A, B = base + "/A", base + "/B"
             for root in (A, B):
@@ -102,7 +113,7 @@ def run(tier, seed):
                 case = obs = None
                 raw = {"rc": rr["rc"], "events": []}
             else:
-                case, obs, raw = ew.run_once(sc, A + "/src", A + "/dst", fl, ids, extra_args=state_cli + xargs)
+                case, obs, raw = ew.run_once(sc, A + "/src", A + "/dst", fl, ids, extra_args=state_cli + xargs + link_args)
             as_, ad, ah = world.snapshot(A + "/src"), world.snapshot(A + "/dst"), world.snapshot(home)
             wfail = []
             for where, b, a in (("src", bs, as_), ("dst", bd, ad), ("home", bh, ah)):
@@ -115,7 +126,7 @@ def run(tier, seed):
                 fl2 = dict(fl); fl2["dry"] = 0
                 ids2 = ew.Ids()
                 ids2.names, ids2.contents = dict(ids.names), dict(ids.contents)
-                case2, obs2, raw2 = ew.run_once(sc, B + "/src", B + "/dst", fl2, ids2, extra_args=state_cli + xargs)
+                case2, obs2, raw2 = ew.run_once(sc, B + "/src", B + "/dst", fl2, ids2, extra_args=state_cli + xargs + link_args)
                 kv2 = dict(x.split("=", 1) for x in obs2.split(" "))
                 kv1 = dict(x.split("=", 1) for x in obs.split(" "))
                 if kv2["refused"] != kv1["refused"]:
@@ -126,7 +137,8 @@ def run(tier, seed):
                 # the model has no state files: drop them from the observation before comparing
                 o_cmp = " ".join(x for x in obs.split(" "))
                 listing_changed = any(f["klass"] in ("clear-cache", "resume-state") for f in wfail)   # the known side effects alter what the engine scans
-                if not listing_changed and strip_meta(m, ids) != strip_meta(o_cmp, ids):
+                # (Engine.v has no symbolic links: the worlds with links are judged by the twin and the snapshots only)
+                if not listing_changed and not link_args and strip_meta(m, ids) != strip_meta(o_cmp, ids):
                     diffs.append({"world": i, "flags": fl, "state": state, "impl": obs, "model": m, "case": case})
                 if raw["events"]:
                     nontriv.add(obs)
